@@ -313,6 +313,34 @@ func init() {
 		}
 		return re.ReplaceAllString(string(src), string(repl))
 	}
+	externals["(*regexp.Regexp).FindStringSubmatch"] = func(fr *frame, a []value) value {
+		re, ok := reNative(fr, a)
+		src, ok1 := concBytes(a[1])
+		if !ok || !ok1 {
+			fr.i.ctx.end("UNSUPPORTED", "regexp.FindStringSubmatch on a symbolic subject or pattern")
+		}
+		m := re.FindStringSubmatch(string(src))
+		if m == nil {
+			return []value(nil)
+		}
+		out := make([]value, len(m))
+		for k := range m {
+			out[k] = m[k]
+		}
+		return out
+	}
+	externals["(*regexp.Regexp).SubexpNames"] = func(fr *frame, a []value) value {
+		re, ok := reNative(fr, a)
+		if !ok {
+			fr.i.ctx.end("UNSUPPORTED", "regexp.SubexpNames on a symbolic pattern")
+		}
+		names := re.SubexpNames()
+		out := make([]value, len(names))
+		for k := range names {
+			out[k] = names[k]
+		}
+		return out
+	}
 	externals["(*regexp.Regexp).MatchString"] = func(fr *frame, a []value) value {
 		p := a[0].(*value)
 		h := fr.i.regexes[p]
